@@ -2,6 +2,7 @@
 import core
 
 OPS = ["rot_axis", "rot_3d", "mat_of_quat", "quat_rot", "vec2_rot"]
+OPS_S = ["rot_axis", "mat_of_quat", "quat_rot", "vec2_rot"]
 
 
 def key(rec):
@@ -29,9 +30,15 @@ def run(ctx):
     thorough = ctx.tier == "thorough"
     core.law_runs(ctx, "Law_Xform", ["Law_Xform_P", "Law_Xform_Q"])
     n = 300 if thorough else 20
+    # symbolic lane: matrix entries are free symbols and the angle is a symbol whose (cos, sin) are paired symbols, so each
+    # record (rotation_x/y/z, rotated_*, rotate_* on every matrix type and layout, From<Quaternion>, the axis-aligned
+    # quaternion builders, Vec2 rotation) is the polynomial computed for EVERY angle and operand
+    core.drive_validate(ctx, "sym", "Trace_Xform", "Trace_Xform_S", "rot-sym", 1, OPS_S, key=key,
+                        extra_args=["--area", "rot"], corrupt_op="rot_axis")
     core.drive_validate(ctx, "rot", "Trace_Xform", "Trace_Xform_F", "rot", n, OPS, key=key,
                         corrupt_op="rot_3d", nontrivial=nontrivial)
-    ctx.assumptions = ["angles are the tokens k*phi_b (cos/sin rational: 4/5, 12/13, 40/41, 15/17; |k| <= 6) - all-angle "
+    ctx.assumptions = ["symbolic lane: vek is generic in T and stable Rust has no specialisation, so the polynomial returned on free symbols is the function computed for every element type (parametricity); calls that need a square root or a division by a symbol are not in this lane",
+                       "angles are the tokens k*phi_b (cos/sin rational: 4/5, 12/13, 40/41, 15/17; |k| <= 6) - all-angle "
                        "coverage is through the laws on the specification (c, s free with c^2+s^2=1), the code is "
                        "sampled on tokens", "values compared in the prime field Z_46337",
                        "axes have rational length (scaled Pythagorean triples, all sign/permutation images)"]
